@@ -97,7 +97,13 @@ func buildOne(tc *treeCase) (out buildOut) {
 			}
 			ks = append(ks, k)
 		}
-		opts = append(opts, core.WithBannedDirectives(ks...))
+		if tc.BanSplit {
+			for _, k := range ks {
+				opts = append(opts, core.WithBannedDirectives(k), core.WithBannedDirectives())
+			}
+		} else {
+			opts = append(opts, core.WithBannedDirectives(ks...))
+		}
 	}
 	rootPath := filepath.Join(root, filepath.FromSlash(tc.Root))
 	j, je := kit.NewJApiFromFile(fs.NewFile(rootPath, files[tc.Root]), opts...)
